@@ -363,20 +363,22 @@ func scenarioC12(x *runner.X) {
 				case "cid_to_offset_and_size":
 					if ix, err := indexes.OpenWithReader_CidToOffsetAndSize(rd); err == nil {
 						ix.Meta()
-						for i, o := range w.Objects {
-							if i < 3 {
-								ix.Get(o.Cid)
-							}
+						for _, o := range w.Objects { // all of them: a changed stride leaves few keys findable
+							ix.Get(o.Cid)
 						}
 					}
 				case "slot_to_cid":
 					if ix, err := indexes.OpenWithReader_SlotToCid(rd); err == nil {
-						ix.Get(w.Blocks[0].Slot)
+						for _, b := range w.Blocks {
+							ix.Get(b.Slot)
+						}
 						ix.Get(w.FirstSlot + 12345)
 					}
 				case "sig_to_cid":
 					if ix, err := indexes.OpenWithReader_SigToCid(rd); err == nil {
-						ix.Get(w.Txs[0].Sig())
+						for _, tx := range w.Txs {
+							ix.Get(tx.Sig())
+						}
 					}
 				case "sig_exists":
 					if rd, err := bucketteer.NewReader(rd); err == nil {
